@@ -91,8 +91,15 @@ func MarshalValue(self Value, isInner bool) (out interface{}, skipNull bool) {
 			return nil, false
 		}
 	default:
-		panic(fmt.Sprintf("Cannot encode value of type '%v' to JSON", self.Kind()))
+		return jsonUnsupported{kind: self.Kind()}, false
 	}
+}
+
+// A value without a JSON form: json.Marshal fails on it, which to_json reports as a JSON error.
+type jsonUnsupported struct{ kind ValueKind }
+
+func (u jsonUnsupported) MarshalJSON() ([]byte, error) {
+	return nil, fmt.Errorf("Cannot encode value of type '%v' to JSON", u.kind)
 }
 
 func TypeAwareUnmarshalValue(self interface{}, typ ast.Type) *Value {
